@@ -7,6 +7,7 @@ import (
 	"crypto/sha256"
 	"fmt"
 	"go/types"
+	"strconv"
 	"strings"
 	"time"
 )
@@ -233,6 +234,51 @@ func init() {
 	E["strings.Index"] = func(fr *frame, args []value) value {
 		return indexStr(fr, strElems(args[0]), strElems(args[1]))
 	}
+	// strconv on symbolic integers: decimal text as a lazily rendered number (like fmt's %d)
+	fmtInt := func(name string, signedKind bool) {
+		E["strconv."+name] = func(fr *frame, args []value) value {
+			sv, sym := args[0].(symv)
+			base := 10
+			if len(args) > 1 {
+				base = int(asInt64(args[1]))
+			}
+			if !sym {
+				if signedKind {
+					return strconv.FormatInt(asInt64(args[0]), base)
+				}
+				return strconv.FormatUint(uint64(asInt64(args[0])), base)
+			}
+			if base != 10 {
+				panic(engineError{"strconv." + name + ": symbolic value in a base other than 10"})
+			}
+			return &rope{parts: []value{lazyDec{fr: fr, v: sv}}}
+		}
+	}
+	fmtInt("Itoa", true)
+	fmtInt("FormatInt", true)
+	fmtInt("FormatUint", false)
+	appInt := func(name string, signedKind bool) {
+		E["strconv."+name] = func(fr *frame, args []value) value {
+			dst, _ := args[0].([]value)
+			sv, sym := args[1].(symv)
+			base := int(asInt64(args[2]))
+			if !sym {
+				var txt string
+				if signedKind {
+					txt = strconv.FormatInt(asInt64(args[1]), base)
+				} else {
+					txt = strconv.FormatUint(uint64(asInt64(args[1])), base)
+				}
+				return append(dst, strElems(txt)...)
+			}
+			if base != 10 {
+				panic(engineError{"strconv." + name + ": symbolic value in a base other than 10"})
+			}
+			return append(dst, strElems(decimalBV(fr, sv))...)
+		}
+	}
+	appInt("AppendInt", true)
+	appInt("AppendUint", false)
 	E["internal/stringslite.Clone"] = func(fr *frame, args []value) value { return args[0] }
 	E["strings.Clone"] = E["internal/stringslite.Clone"]
 	E["strings.Count"] = func(fr *frame, args []value) value {
